@@ -462,6 +462,9 @@ class RunBundler:
                 timestamps=timestamps,
             )
             self.emit_sync(DocumentNames.event, doc)
+            # Monitor events are never replayed, so a rewind must not roll their
+            # numbering back: keep the checkpoint snapshot of this stream in step.
+            self._sequence_counters_copy[name] = self._sequence_counters[name]
 
         self._monitor_params[obj] = emit_event, kwargs
         # TODO: deprecate **kwargs when Ophyd.v2 is available
